@@ -53,7 +53,7 @@ Definition char_of_u32 (v : N) : N :=
 
 (* CssString::unquote for a quoted string: a state machine over the chars.
    UEsc val got = inside the `loop` after a backslash.  The accumulator is a
-   u32: `val * 10 + digit` overflowing is a panic in a debug build (None). *)
+   u32: `val * 16 + digit` overflowing is a panic in a debug build (None). *)
 Inductive ust : Type := UNormal | UEsc (val : N) (got : bool).
 
 Definition u32_max : N := 4294967295.
@@ -69,7 +69,7 @@ Fixpoint unq (l : list N) (st : ust) : option (list N) :=
       if (c =? 32) && got then option_map (cons (char_of_u32 val)) (unq r UNormal)
       else match hex_digit c with
            | Some d =>
-               let v' := val * 10 + d in
+               let v' := val * 16 + d in
                if u32_max <? v' then None else unq r (UEsc v' true)
            | None =>
                if got then
